@@ -40,7 +40,8 @@ def gen_directed(rng, kind):
         n = 2
         m = rng.choice([3, 4])
         x = [rng.randrange(1, 16) for _ in range(m)]
-        ops.append(rec("Hadamard", [1])); ops.append(rec("SX", [2]))
+        ops.append(rec("RY", [1], [rng.choice([1, 3, 5, 7])])); ops.append(rec("RX", [2], [rng.choice([1, 3, 5, 7])]))
+        ops.append(rec("CNOT", [2, 1]))
         w = rng.randint(1, 2)
         idx = rng.sample(range(m), 3) if rng.random() < 0.6 else [0, 1, 0]
         train("RZ", [w], idx[0], rot="head"); train("RY", [w], idx[1], rot="mid"); train("RZ", [w], idx[2], rot="tail")
@@ -156,11 +157,23 @@ def run(tier, seed):
         if c["meas"][0] in ("expval", "probs") and len(c["tr"]) <= 4:
             cases.append(c)
     nd = 2 if tier == "quick" else 25
-    cases += [gen_directed(rng, k) for k in ("rot", "crot", "shared") for _ in range(nd)]
+    cases += [gen_directed(rng, k) for k in ("rot", "crot", "shared") for _ in range(4 * nd)]      # candidates, filtered below
     sts, stats = deriv.states("C37", [{"n": c["n"], "ops": tlc_ops(c), "tr": c["tr"]} for c in cases], M, order=2)
     viol, n_cmp, rej, samples, nontriv = [], 0, {}, [], set()
+    kept = {"rot": 0, "crot": 0, "shared": 0}
     for ci, (c, st) in enumerate(zip(cases, sts)):
         H = exact_hessian(c, st)
+        if c.get("directed"):
+            # keep a directed candidate only if the entries it is meant to exercise are non-zero (decided on the exact Hessian)
+            Hm = H.reshape((-1,) + H.shape[-2:])
+            off = np.max(np.abs(Hm - np.stack([np.diag(np.diag(h)) for h in Hm]))) if H.shape[-1] > 1 else 0.0
+            if c["directed"] == "rot":
+                rot = [k for k in c["tr"] if c["ops"][k].get("rot")]
+                off = max(abs(float(np.max(np.abs(np.asarray(deriv.hess(c["meas"], st, c["n"], rot[a], rot[b]))))))
+                          for a in range(3) for b in range(a + 1, 3))
+            if off < 1e-3 or kept[c["directed"]] >= nd:
+                continue
+            kept[c["directed"]] += 1
         for tag, val in pl_hessians(c, full=(tier != "quick" or ci % 4 == 0 or bool(c.get("directed")))).items():
             if val is None:
                 continue
@@ -207,10 +220,12 @@ def run(tier, seed):
         if len(samples) < 2 and np.max(np.abs(H)) > 1e-3 and len(c["x"]) >= 2:
             samples.append({"x_lattice": c["x"], "ops": [(g["g"], g["w"], g["p"], g.get("aff")) for g in c["ops"]], "measurement": c["meas"],
                             "exact_hessian": np.round(H, 8).tolist()})
+    if any(v == 0 for v in kept.values()):
+        raise lib.MachineryError(f"vacuity: a directed family has no candidate with a non-zero target entry: {kept}")
     if np.allclose(np.array([0.3]), np.array([0.3 + 1e-5]), atol=1e-7):
         raise lib.MachineryError("negative control accepted")
     cov = {"states": stats["distinct"], "transitions": stats["generated"], "traces_validated_against_impl": n_cmp, "evaluations": n_cmp,
            "distinct_nontrivial": len(nontriv), "rule": "seeded circuits as in C34 with 1-4 trainable gates plus directed families (qp.Rot with separate / shared angles, trainable controlled rotations under a phase-sensitive observable, shared and rescaled arguments with probs); non-trivial = distinct circuits with >= 2 arguments "
-           "and a non-zero exact Hessian on which every accepting configuration agreed", "samples": samples, "rejections": rej,
+           "and a non-zero exact Hessian on which every accepting configuration agreed", "samples": samples, "rejections": rej, "directed_cases_kept": kept,
            "negative_controls_rejected": 1}
     return CheckResult(coverage=cov, violations=viol, assumptions=["exact states psi, d psi, d^2 psi from TLC; bilinear forms in float64; 1e-7"])
